@@ -10,7 +10,7 @@ W="$VERIF_DIR/work/nostd-probe"; mkdir -p "$W"
 # the tree under test is the one the harness is built against (/repo; a scratch copy when the
 # whole of /verif runs against a scratch copy)
 REPO=$(sed -n 's/^micromap *= *{ *path *= *"\([^"]*\)".*/\1/p' "$VERIF_DIR/harness/base/Cargo.toml" | head -n 1); REPO=${REPO:-/repo}
-LOG="$W/probe.log"; : > "$LOG"
+LOG="$W/probe.log"; : > "$LOG"; rm -f "$VERIF_DIR/work/nostd-probe.json"
 bad=0
 for prof in release dev; do
 for feat in "" "serde"; do
@@ -30,4 +30,5 @@ for feat in "" "serde"; do
 done
 done
 if [ $bad -eq 1 ]; then echo "VIOLATION property=C06 replay=$LOG"; exit 1; fi
+echo "{\"probe\":\"no_std link probe (rustc -Zls of the rlib; profiles release and dev; features none and serde)\",\"result\":\"no std dependency\",\"configurations\":4}" > "$VERIF_DIR/work/nostd-probe.json"
 exit 0
